@@ -173,6 +173,25 @@ static void emit_piek(const F::Factors & sp, const F::PartialKeys & keys, size_t
     Line l; l << "C14" << "piek"; l.nats(sp); l.nats(keys) << fixed << val << missing << "|"; l.nats(seq); l.emit();
 }
 
+static void emit_tipf(const F::Factors & sp, const F::PartialFactors & pf) {
+    if (pf.first.empty()) return;     // toIndex(space, pf) reads pf.first[0] unconditionally
+    size_t idx = F::toIndex(sp, pf);
+    auto full = F::toFactors(sp.size(), pf);
+    Line l; l << "C14" << "tipf"; l.nats(sp); l.nats(pf.first); l.nats(pf.second); l << "|" << idx; l.nats(full); l.emit();
+}
+static void emit_misc(Rng & rng, const F::Factors & sp) {
+    auto pf = randomPF(rng, sp);
+    F::Factors full(sp.size()), other(sp.size());
+    for (size_t k = 0; k < sp.size(); ++k) { full[k] = rng.below(sp[k]); other[k] = rng.coin(2, 3) ? full[k] : rng.below(sp[k]); }
+    if (rng.coin(2, 3)) for (size_t j = 0; j < pf.first.size(); ++j) pf.second[j] = full[pf.first[j]];
+    size_t f = rng.below(sp.size());
+    auto rem = F::removeFactor(pf, f);
+    bool m1 = F::match(full, pf), m2 = F::match(pf.first, full, other);
+    auto jn = F::join(full, other);
+    Line l; l << "C14" << "misc"; l.nats(sp); l.nats(pf.first); l.nats(pf.second); l.nats(full); l.nats(other) << f << "|";
+    l.nats(rem.first); l.nats(rem.second) << m1 << m2; l.nats(jn); l.emit();
+}
+
 static double dy(Rng & rng) { return (double)rng.range(-32, 32) / 4.0; }
 
 static F::Factors randSpace(Rng & rng, int maxF, int maxD, size_t cap) {
@@ -697,6 +716,16 @@ void verif::verif_case(Rng & rng, long idx, const std::string & tier) {
     idx -= 1;
     if (idx < g_nSpaces + g_nRandom) {
         core_case(rng, idx, tier);
+        {
+            const F::Factors & spc = idx < g_nSpaces ? g_spaces[idx] : F::Factors{(size_t)rng.range(1, 4), (size_t)rng.range(1, 4), (size_t)rng.range(1, 4), (size_t)rng.range(1, 3)};
+            for (int t = 0; t < 4; ++t) { emit_tipf(spc, randomPF(rng, spc)); emit_misc(rng, spc); }
+            if (idx < g_nSpaces && spc.size() <= 3)     // every key subset with every value tuple
+                for (size_t mask = 1; mask < (1u << spc.size()); ++mask) {
+                    F::PartialKeys keys; for (size_t k = 0; k < spc.size(); ++k) if (mask & (1u << k)) keys.push_back(k);
+                    size_t psp = F::factorSpacePartial(keys, spc);
+                    for (size_t id = 0; id < psp; ++id) emit_tipf(spc, F::PartialFactors{keys, F::toFactorsPartial(keys, spc, id)});
+                }
+        }
         if (idx < g_nSpaces) { if (F::factorSpace(g_spaces[idx]) <= 81) piek_cases(rng, g_spaces[idx]); }
         else {
             F::Factors sp = randSpace(rng, 5, 4, 400);
